@@ -7,6 +7,8 @@ Token grammar (everything is space separated; numbers are exact `m:e` tokens):
 
 * `c15.clock <lti|ltv|nls> <c0> ev…`            ev ∈ `call raise fwd reset=<num> assign=<num> ref=<num|none>`
   → the clock after every event
+* `c15.mclock n kind*n ev…`   tagged events `i:<clock event>`, `i:afrom=j`, `i:rfrom=j`, `i:reffrom=j`
+  → the n clocks after every event
 * `c15.lin <lti|ltv> <periodic 0/1> T n m p hasc1 hasc2 c0 <stacked A B C D [c1] [c2]> ev…`
   ev ∈ `call <len> x… <len> u…`, `fwd <len> x… <len> u…`, `reset=…`, `assign=…`, `ref=…`
   → per event: clock, then `-` | `R` (raised) | `O x'… y…`
@@ -92,6 +94,19 @@ def clockEv (tok : String) : P Ev :=
   | _ => match timeEv tok with
     | some r => r
     | none => .error s!"bad-event:{tok}"
+
+/-- tagged event `i:<ev>`; `<ev>` is a clock event or `afrom=j`, `rfrom=j`, `reffrom=j` -/
+def multiEv (tok : String) : P (Nat × MEv) :=
+  match tok.splitOn ":" with
+  | i :: rest => do
+    let i ← nat i
+    let body := ":".intercalate rest
+    match body.splitOn "=" with
+    | ["afrom", j] => return (i, .assignFrom (← nat j))
+    | ["rfrom", j] => return (i, .resetFrom (← nat j))
+    | ["reffrom", j] => return (i, .refFrom (← nat j))
+    | _ => return (i, .own (← clockEv body))
+  | _ => .error s!"bad-event:{tok}"
 
 /-! ### linear systems -/
 
@@ -214,6 +229,16 @@ def opsC15 : List (String × Handler) := [
         let c0 ← int c0
         let evs ← evs.mapM clockEv
         return fmtInts (traceClock kd c0 evs)
+      | _ => throw "arity"),
+  -- c15.mclock n kind*n ev…   → n clocks after every event
+  ("c15.mclock", fun ts => do
+      match ts with
+      | n :: rest =>
+        let n ← nat n
+        let (kds, evs) ← takeN n rest
+        let kds ← kds.mapM kindOf
+        let evs ← evs.mapM multiEv
+        return fmtInts (traceMulti kds (List.replicate n 0) evs).flatten
       | _ => throw "arity"),
   ("c15.lin", fun ts => do
       match ts with
